@@ -26,15 +26,15 @@ def bounds(tier):
                 "dyadic": "all sequences of 1..4 items over {0,1/8,..,1}, B=1, ff/ffd/bf/bfd",
                 "output types": "all 10 on multisets of 1..4 items over 0..6, B=6",
                 "halves": "multiples of 1/2 around B/2 and B (B=7, B=10): sequences of 1..4, multisets of 5..7; four fit heuristics",
-                "halves": "multiples of 1/2 around B/2 and B (B=7, B=10): sequences of 1..5, multisets of 5..8; four fit heuristics",
-            "big": "B=2**32, letters {1, 2**31-1, 2**31, 2**31+1, 2**32-1, 2**32}: all sequences of 1..4 (ff/bf), multisets of 1..5 (ffd/bfd/bc); the same letters divided by 2**32 with B=1 (fit heuristics)",
+                "big": "B=2**32, letters {1, 2**31-1, 2**31, 2**31+1, 2**32-1, 2**32}: all sequences of 1..4 (ff/bf), multisets of 1..5 (ffd/bfd/bc); the same letters divided by 2**32 with B=1 (fit heuristics)",
                 "count-sweep": "for every m in 1..40: m items of 6 (B=10) alone / with m fours / with fours and threes / with 2m ones: 4 fit heuristics in 3 orders, bin-completion, all output types",
                 "long-thin": "multisets of 9..15 items over {1,2} (B=5), {1,2,3} (B=7), {2,3,5} (B=10), {0,1,4} (B=4): ff/bf in 6 fixed orders, ffd/bfd/bc"}
-    return {"ff/bf": "all sequences of 1..6 items over 0..6, B=6; all sequences of 1..5 over 0..10 step... (0,1,2,3,4,5,7,10), B=10",
-            "ffd/bfd/bc": "all multisets of 1..8 items over 0..6 (B=6), 1..7 over 0..10 (B=10), 1..6 over 0..12 (B=12), 1..6 over {0,1,3,5,7,10,13,20} (B=20), 1..9 over 1..10 (B=20)",
-            "dyadic": "all sequences of 1..5 items over {0,1/8,..,1}, B=1",
-            "output types": "all 10 on multisets of 1..5 items over 0..6, B=6",
-            "big": "B=2**32, letters {1, 2**31-1, 2**31, 2**31+1, 2**32-1, 2**32}: all sequences of 1..5 (ff/bf), multisets of 1..6 (ffd/bfd/bc); the same letters divided by 2**32 with B=1 (fit heuristics)",
+    return {"ff/bf": "all sequences of 1..7 items over 0..6, B=6; all sequences of 1..5 over (0,1,2,3,4,5,7,10), B=10",
+            "ffd/bfd/bc": "all multisets of 1..10 items over 0..6 (B=6), 1..8 over 0..10 (B=10), 1..7 over 0..12 (B=12), 1..8 over {0,1,3,5,7,10,13,20} (B=20), 1..10 over 1..10 (B=20)",
+            "dyadic": "all sequences of 1..6 items over {0,1/8,..,1}, B=1; grain 2**-32: sequences of 1..6",
+            "output types": "all 10 on multisets of 1..6 items over 0..6, B=6",
+            "halves": "multiples of 1/2 around B/2 and B (B=7, B=10): sequences of 1..6, multisets of 5..9; four fit heuristics",
+            "big": "B=2**32, letters {1, 2**31-1, 2**31, 2**31+1, 2**32-1, 2**32}: all sequences of 1..6 (ff/bf), multisets of 1..7 (ffd/bfd/bc); the same letters divided by 2**32 with B=1 (fit heuristics)",
             "count-sweep": "for every m in 1..140: m items of 6 (B=10) alone / with m fours / with fours and threes / with 2m ones: 4 fit heuristics in 3 orders, bin-completion, all output types",
             "long-thin": "multisets of 9..24 items over {1,2} (B=5), 9..16 over {1,2,3} (B=7), 9..14 over {2,3,5} (B=10), 9..14 over {0,1,4} (B=4): ff/bf in 6 fixed orders, ffd/bfd/bc"}
 
@@ -56,7 +56,7 @@ def tasks(tier):
         for ch in spaces.chunked(spaces.sequences((0, 1, 2, 3, 4, 5, 7, 10), 1, 5), 2500):
             ts.append(("seq-fit", ch, 10))
     dec = [(range(0, 7), 7, 6), (range(0, 11), 6, 10), (range(1, 11), 8, 20)] if q else \
-          [(range(0, 7), 8, 6), (range(0, 11), 7, 10), (range(0, 13), 6, 12), ((0, 1, 3, 5, 7, 10, 13, 20), 6, 20), (range(1, 11), 9, 20)]
+          [(range(0, 7), 10, 6), (range(0, 11), 8, 10), (range(0, 13), 7, 12), ((0, 1, 3, 5, 7, 10, 13, 20), 8, 20), (range(1, 11), 10, 20)]
     for alpha, N, B in dec:
         for ch in scopes.chunk_multisets(alpha, 1, N, 300):
             ts.append(("ms-dec", ch, B))
